@@ -38,14 +38,11 @@ def check_width_table(mm, rep):
                 binds[side + "u"] = lid
     if not rep.anchor("R15.2", "L" in binds and "R" in binds, "width bindings of both words in the Word x Word arm"):
         return
-    wm = None
-    for m, ps in F.exprs(arm.node["body"], "Match"):
-        sc = m["scrut"]
-        if sc.get("k") == "Tup" and len(sc["elems"]) == 2 and F.local_of(sc["elems"][0]) == binds["L"] and F.local_of(sc["elems"][1]) == binds["R"]:
-            wm = (m, ps)
-    if not rep.anchor("R15.2", wm is not None, "the match on (width_left, width_right)"):
+    # the word that is built: TE::word(W, U); W is a local bound somewhere in the arm
+    word_calls = [c for c, _ in F.calls(arm.node["body"]) if F.strip_generics(F.callee_def(c) or "").endswith("TypeExpression::word") and len(c["args"]) == 2]
+    wl = F.local_of(F.strip(word_calls[0]["args"][0])) if word_calls else None
+    if not rep.anchor("R15.2", wl is not None, "the merged word TE::word(width, usage) with a let-bound width"):
         return
-    m, ps = wm
     A, B = ("w", "A"), ("w", "B")
     toks = {"unknown": tabeval.NONE, "w": tabeval.some(A), "w'": tabeval.some(B)}
     want = {
@@ -57,10 +54,11 @@ def check_width_table(mm, rep):
         ("w'", "w"): "conflict",
     }
     bad = []
+    where_w = arm.where()
     try:
         for (x, y), expect in want.items():
             env = {binds["L"]: toks[x], binds["R"]: toks[y]}
-            r = tabeval.eval_expr(m, env)
+            r = tabeval.eval_block_prefix(arm.node["body"], env, wl)
             if expect == "conflict":
                 ok = isinstance(r, tuple) and r[0] == "return"
             else:
@@ -68,19 +66,18 @@ def check_width_table(mm, rep):
             if not ok:
                 bad.append(f"widths ({x}, {y}) give {r}")
     except tabeval.NotATable as e:
-        rep.oblige(False, "R15.2", "width-table", F.loc(m["span"]), f"the width combination is no longer a table over (unknown, w, w') ({e})")
+        rep.oblige(False, "R15.2", "width-table", where_w, f"the width combination is no longer a table over (unknown, w, w') ({e})")
         return
-    rep.oblige(not bad, "R15.2", "width-table", F.loc(m["span"]), "the width table of Word x Word is wrong: " + "; ".join(bad), sample={"rule": "R15.2", "cases": len(want), "table": "known beats unknown, equal stays, different conflicts"})
-    # the different-width exit builds a conflict
-    rets = [n for n, _ in F.walk(m) if n.get("k") == "Ret"]
+    rep.oblige(not bad, "R15.2", "width-table", where_w, "the width table of Word x Word is wrong: " + "; ".join(bad), sample={"rule": "R15.2", "cases": len(want), "table": "known beats unknown, equal stays, different conflicts"})
+    # the different-width exit builds a conflict: every `return` in front of the width's binding does
+    wk = None
+    for n_, _ in F.walk(arm.node["body"]):
+        if n_.get("s") == "Let" and "init" in n_ and n_["pat"].get("p") == "Bind" and n_["pat"].get("local") == wl:
+            wk = T._span_key(n_["span"])
+    rets = [n for n, _ in F.walk(arm.node["body"]) if n.get("k") == "Ret" and (wk is None or T._span_key(n["span"])[1] <= wk[2])]
     conf = all(any(F.strip_generics(F.callee_def(c) or "").endswith("TypeExpression::conflict") for c, _ in F.calls(r)) for r in rets) and rets
-    rep.oblige(bool(conf), "R15.2", "different-widths-conflict", F.loc(m["span"]), "different known widths do not produce a conflict")
+    rep.oblige(bool(conf), "R15.2", "different-widths-conflict", where_w, "different known widths do not produce a conflict")
     # result word built from (that width, merged usage)
-    wl = None
-    for anc, key in reversed(ps):
-        if anc.get("s") == "Let" and key == "init" and anc["pat"].get("p") == "Bind":
-            wl = anc["pat"]["local"]
-            break
     built = False
     for c, cps in F.calls(arm.node["body"]):
         if F.strip_generics(F.callee_def(c) or "").endswith("TypeExpression::word") and len(c["args"]) == 2:
